@@ -294,12 +294,25 @@ func famC09(e *emitter, g *gen.G, thorough bool) {
 	lens := []int{0, 1, 2, 15, 16, 17, 31, 32, 33, 255, 256, 1023, 1024, 1025, 2047, 2048, 2049, 2079, 2080, 4095, 4096, 4097, 6143, 6144, 6145, 6184}
 	blens := []int{0, 1, 15, 16, 17, 255, 256, 1023, 1024, 1025, 4095, 4096, 4097, 8191, 8192, 8193, 12288, 12289, 12328}
 	if thorough {
+		// every length up to 300 and within 48 of every form / chunk boundary, every 5th length elsewhere
+		near := func(i int, bs []int) bool {
+			for _, b := range bs {
+				if i >= b-48 && i <= b+48 {
+					return true
+				}
+			}
+			return false
+		}
 		lens, blens = nil, nil
 		for i := 0; i <= 3*2048+40; i++ {
-			lens = append(lens, i)
+			if i <= 300 || i%5 == 0 || near(i, []int{1023, 2048, 4096, 6144}) {
+				lens = append(lens, i)
+			}
 		}
-		for i := 0; i <= 3*4096+40; i += 1 {
-			blens = append(blens, i)
+		for i := 0; i <= 3*4096+40; i++ {
+			if i <= 300 || i%7 == 0 || near(i, []int{1023, 4096, 8192, 12288}) {
+				blens = append(blens, i)
+			}
 		}
 	}
 	for _, n := range lens {
